@@ -118,20 +118,25 @@ PROPS = {
         unreached=["FormattedEntryIoStream::next (Format trait not modelled)"],
     ),
     "C11": dict(
-        verus=[("hist", {})],
-        technique="Verus contracts + loop invariants on the real observation-capture loop (Histogram::add_value's Capturer::metric), the re-aggregation loop (AggregateValue<HistogramClosed>::insert) and the sort-and-merge strategy (record_many, drain)",
+        verus=[("hist", {}), ("hist_exp", {})],
+        kani=["agg_hist"],
+        technique="Verus contracts + loop invariants on the real observation-capture loop (Histogram::add_value's Capturer::metric), the re-aggregation loop (AggregateValue<HistogramClosed>::insert), the sort-and-merge strategy (record_many, drain) "
+                  "and the exponential strategies' glue around the `histogram` dependency (record_many, drain closures, scale_up, scale_down; atomic and non-atomic); Kani proof harnesses on the real record_many for the numeric scaling",
         level_text="Deductive proof (Verus/z3), for distributions and value lists of any length: (capture) every observation handed to a histogram is recorded exactly once, in order - a plain observation once at its value, "
                    "Repeated{total, n} n times at total/n, an empty Repeated not at all - hence as many values are recorded as the observations have occurrences (lemma); (re-aggregation) inserting a closed histogram records "
                    "every closed observation the same way; (sort-and-merge) record_many appends `count` copies, and drain reports exactly the run-length encoding of the recorded non-NaN values in ascending order - one "
-                   "Repeated{value x count, count} per maximal run of equal values, counts adding up to the number of values (lemma) - and leaves the strategy empty. "
-                   "NOT decided: the exponential strategies (bucket arithmetic of the `histogram` dependency, 6.25% bound), the atomic variants / concurrent recording, SharedHistogram's twin capture loop.",
-        level_note="Trusted: Verus + z3. Floating point is opaque: `a / b`, `a * b`, `u as f64`, `a == b`, `is_nan` are deterministic uninterpreted functions of their operands (axioms / rewrites RF, S4), so 'mean' and 'value x count' "
-                   "are stated with those functions and only counts are exact. Exact-text rewrites S1 (sort_by_key(OrderedFloat) -> sorted permutation w.r.t. an opaque total order), S2 (iter().copied().filter(!is_nan)), "
-                   "S3 (extend(repeat_n)); R3b, R14; std's Iterator/IntoIterator restated over element sequences; usize is 64 bits; the trait's default `record` = record_many(value, 1) is restated, not extracted.",
-        explanation="histogram capture, re-aggregation and sort-and-merge conservation",
-        assumptions=["the exponential / atomic strategies meet the strategy contract (not verified: dependency bucket arithmetic, atomics)",
+                   "Repeated{value x count, count} per maximal run of equal values, counts adding up to the number of values (lemma) - and leaves the strategy empty; (exponential, atomic and non-atomic) record_many makes exactly one "
+                   "`add` of the scaled, saturated value with the count unchanged, and drain swaps in an empty histogram and reports exactly one Repeated{scale_down(midpoint) x count, count} per non-empty bucket, in bucket order "
+                   "(so reported occurrences = bucket counts). Kani/CBMC proof for every double 0 <= x < 2^43 and every count that the value handed to the dependency is floor(x * 2^10), and that values >= 2^54 saturate at u64::MAX. "
+                   "NOT decided: the bucket layout of the `histogram` dependency (which bucket a value falls into, its width: the 6.25% / 1/1024 bound), concurrent recording, SharedHistogram's twin capture loop.",
+        level_note="Trusted: Verus + z3; CBMC float model. In Verus floating point is opaque: `a / b`, `a * b`, casts, `a == b`, `min`, `is_nan` are deterministic uninterpreted functions of their operands (axioms / rewrites RF, S4, E1, E4), so 'mean', "
+                   "'value x count' and 'scaled midpoint' are stated with those functions and only counts are exact. Exact-text rewrites S1 (sort_by_key(OrderedFloat) -> sorted permutation w.r.t. an opaque total order), S2 (iter().copied().filter(!is_nan)), "
+                   "S3 (extend(repeat_n)); R3b, R14; std's Iterator/IntoIterator and the iterator adapters filter/map/collect restated over element sequences with the closures' contracts; the `histogram` crate's Histogram/AtomicHistogram/Bucket are stand-ins "
+                   "with an opaque bucket list; usize is 64 bits; the trait's default `record` = record_many(value, 1) is restated, not extracted. In the Kani harnesses `Histogram::add` / `AtomicHistogram::add` are stubbed by a recorder.",
+        explanation="histogram capture, re-aggregation, sort-and-merge and exponential glue conservation",
+        assumptions=["the `histogram` dependency: add(value, count) adds count to the bucket containing value, iteration yields every bucket once with its range and count, the atomic variant is linearizable",
                      "OrderedFloat's order places ==-equal floats next to each other (so runs are maximal)"],
-        unreached=["ExponentialAggregationStrategy / AtomicExponentialAggregationStrategy record_many and drain", "SharedHistogram::add_value's Capturer (textual twin of the verified one, &self strategy)",
+        unreached=["bucket arithmetic of the `histogram` crate (6.25% bound)", "SharedHistogram::add_value's Capturer (textual twin of the verified one, &self strategy)",
                    "Histogram::add_value / close wiring, HistogramClosed::write"],
     ),
     "C12": dict(
